@@ -217,7 +217,11 @@ pub fn seq_campaigns(property: &str) -> Vec<SeqCampaign> {
         ],
         "C02" => vec![main("seq-read-agreement", 3000, 50_000, nt_c02, "generated histories with many reads: every read variant is compared with the model after every write, all seven variants are applied to the same keys at quiescent points (they must agree), and multi_get iterators are consumed step by step with an awaited write to the next key between two next() calls (each next() must reflect the state at the time it is called); non-trivial = an iterator step after an intervening write and >= 3 hits")],
         "C03" => vec![main("seq-main", 2500, 50_000, nt_c03, RULE_C03)],
-        "C04" => vec![main("seq-main", 3000, 50_000, nt_c04, RULE_C04)],
+        "C04" => vec![
+            main("seq-main", 3000, 50_000, nt_c04, RULE_C04),
+            SeqCampaign { name: "seq-delete-expired", params: { let mut params = profile("C04"); params.expired_write = 14; params }, policy: Policy { allow_upsert_on_dead_entry: true, allow_put_on_expired_unswept: true, ..Policy::default() }, cases_quick: 1500, cases_thorough: 20_000, nt: |s| s.expired_unswept_writes >= 1 && s.stall_windows >= 1,
+                rule: "as seq-main, plus dense writes - single ones and stall-window bursts of delete / put_or_update / put / reads - on keys that are past their time-to-live and certainly not swept (sweeper parked); puts and upserts of such keys are generated too (the recorded findings F6 / F7 are noted and do not end the case): once delete(k) has returned no read may return the value, whatever is done to the dead entry before the delete is executed; non-trivial = a write on an expired-unswept key and a stall window" },
+        ],
         "C05" => vec![main("seq-main", 3000, 50_000, nt_c05, RULE_C05)],
         "C06" => vec![
             main("seq-main", 3000, 60_000, nt_c06, RULE_C06),
